@@ -1,7 +1,7 @@
 (* C13: the defaults written by svt_svt_enc_init_parameter (regenerated model) do not depend on the caller's
    prior memory, and with any valid picture size they pass the (regenerated) validation. *)
 From Coq Require Import ZArith Bool List Lia ZifyBool.
-From SV Require Import CInt.
+From SV Require Import CInt DocDomain Proofs_C12.
 From SVG Require Import VerifyGen DefaultsGen.
 Import ListNotations.
 Local Open Scope Z_scope.
@@ -27,3 +27,43 @@ Lemma defaults_accepted_examples :
   forallb (fun wh => negb (sp_rejects (with_size defaults (fst wh) (snd wh)) defaults) && sp_in_scope (with_size defaults (fst wh) (snd wh)) defaults)
           [(64, 64); (66, 64); (640, 480); (1280, 720); (1920, 1080); (3840, 2160); (4096, 2160); (4096, 64); (64, 2160)] = true.
 Proof. vm_compute. reflexivity. Qed.
+
+(* ---- every valid picture size ----
+   s0 = the effective configuration (what copy_api_from_app leaves in the sequence control set) for the defaults at 64x64;
+   the effective configuration for any other size differs only in the two size cells (eff_size: both sides are normalised by
+   the kernel with w, h symbolic), and the documented domain / the validation (Proofs_C12) depend on them as stated. *)
+Definition s0 : config := Eval vm_compute in effective (with_size defaults 64 64) defaults.
+Lemma eff_size w h : effective (with_size defaults w h) defaults = with_size s0 (wrapU 16 w) (wrapU 16 h).
+Proof. vm_cast_no_check (eq_refl (with_size s0 (wrapU 16 w) (wrapU 16 h))). Qed.   (* one VM conversion, checked by the kernel at Qed *)
+
+Lemma sized_documented W H : 64 <= W <= 4096 -> 64 <= H <= 2160 -> Z.rem W 2 = 0 -> Z.rem H 2 = 0 ->
+  documented (with_size s0 W H) = true.
+Proof.
+  intros Hw Hh Ew Eh. unfold documented.
+  cbv -[Z.leb Z.ltb Z.eqb Z.geb Z.gtb Z.rem wrapU wrapS Z.land Z.shiftl Z.add Z.mul Z.sub forallb andb].
+  cbn [forallb].
+  repeat (apply andb_true_intro; split).
+  all: try (vm_compute; reflexivity).
+  all: rewrite ?Ew, ?Eh.
+  all: repeat match goal with |- context [if ?b then _ else _] => destruct b eqn:? end; try lia.
+Qed.
+
+Lemma sized_in_type W H : 0 <= W <= 4294967295 -> 0 <= H <= 4294967295 -> in_type (with_size s0 W H).
+Proof.
+  intros Hw Hh. unfold in_type.
+  cbv -[Z.le Z.lt Z.leb Z.ltb Z.eqb Z.geb Z.gtb Z.rem wrapU wrapS Z.land Z.shiftl Z.add Z.mul Z.sub].
+  repeat split; try lia.
+Qed.
+
+Lemma scope_all w h : sp_in_scope (with_size defaults w h) defaults = true.
+Proof. vm_compute. reflexivity. Qed.
+
+Lemma defaults_accepted_all w h : 64 <= w <= 4096 -> 64 <= h <= 2160 -> Z.rem w 2 = 0 -> Z.rem h 2 = 0 ->
+  sp_rejects (with_size defaults w h) defaults = false /\ sp_in_scope (with_size defaults w h) defaults = true.
+Proof.
+  intros Hw Hh Ew Eh. split; [|apply scope_all].
+  unfold sp_rejects. rewrite eff_size.
+  rewrite !wrapU_id by lia.
+  rewrite rejects_iff_not_documented by (apply sized_in_type; lia).
+  rewrite sized_documented by assumption. reflexivity.
+Qed.
